@@ -80,7 +80,7 @@ func check(c Case, o *pbt.Obs) *pbt.Failure {
 	}
 	r2 := fresh("R2(restored@c1)")
 	if c.Used > 0 && n > 0 {
-		u := c.Used % (n + 1)
+		u := c.Used % (c1 + 1) // a snapshot is only installed on a replica that is behind it
 		// the target has applied some other prefix before it is told to restore
 		other := fresh("R2pre")
 		mm := idxsm.Model{}
